@@ -270,7 +270,9 @@ fn base_scn(med: Med, v4fam: bool, cfg: usize, socks: usize, mtu: Option<usize>)
         match cfg {
             0 | 1 | 4 | 5 => {
                 s.addrs = vec![(OWN6LL, 64), (OWN6G, 64)];
-                s.groups = vec![JOINED6];
+                // joining a group on IEEE 802.15.4 makes the first poll panic (the MLD report reaches
+                // IpPayload::as_sixlowpan_next_header's unreachable!()): reported to C03, avoided here
+                s.groups = if med == Med::M154 { vec![] } else { vec![JOINED6] };
                 full_neigh = cfg != 1;
                 s.anyip = cfg == 4;
                 if cfg == 5 {
@@ -471,4 +473,51 @@ fn gen_scenarios(seed: u64, n: usize, tier: &str, prefix: &str) -> Vec<(String, 
         out.push((format!("{}{}-{}", prefix, seed, j), s));
     }
     out
+}
+
+/// hand-picked witnesses of the defects found with this table (kept in corpus/C11, corpus/C10)
+fn witnesses() -> Vec<(&'static str, Scn)> {
+    let rx4 = |med: Med, socks: usize, ll: Ll, src: Ip, dst: Ip, upper: Upper| {
+        let mut s = base_scn(med, true, 0, socks, None);
+        s.ev = Event::Rx(Rx { ll, pan: None, src, dst, hbh: None, upper });
+        s
+    };
+    let rx6 = |med: Med, cfg: usize, socks: usize, ll: Ll, src: Ip, dst: Ip, hbh: Option<Vec<u8>>, upper: Upper| {
+        let mut s = base_scn(med, false, cfg, socks, None);
+        let pan = if med == Med::M154 { Some(OWN_PAN) } else { None };
+        s.ev = Event::Rx(Rx { ll, pan, src, dst, hbh, upper });
+        s
+    };
+    let syn = |dp: u16| Upper::Tcp { sp: 40001, dp, ctl: Ctl::Syn, ack: false, len: 0 };
+    let own_eth = Ll::Eth(OWN_MAC);
+    let send_all = Some(vec![0x9e, 0x00, 0x01, 0x02, 0, 0]);
+    vec![
+        // D5: SYN to the subnet broadcast address: RST from 10.0.0.255, listener killed
+        ("d5-syn-to-subnet-broadcast-listener-ip", rx4(Med::Ip, 1, Ll::None, PEER4, v4(10, 0, 0, 255), syn(80))),
+        ("d5-syn-to-subnet-broadcast-closed-port-eth", rx4(Med::Eth, 1, Ll::Eth(0xffff_ffff_ffff), PEER4, v4(10, 0, 0, 255), syn(9))),
+        ("d5-syn-to-joined-multicast-group-ip", rx4(Med::Ip, 1, Ll::None, PEER4, JOINED4, syn(80))),
+        ("d5-syn-to-all-nodes-v6-ip", rx6(Med::Ip, 0, 1, Ll::None, PEER6LL, v6([0xff02, 0, 0, 0, 0, 0, 0, 1]), None, syn(80))),
+        // D12: UDP to ff02::1, nobody listening: ICMPv6 port unreachable
+        ("d12-udp-to-all-nodes-no-listener-ip", rx6(Med::Ip, 0, 0, Ll::None, PEER6LL, v6([0xff02, 0, 0, 0, 0, 0, 0, 1]), None, Upper::Udp { sp: 40000, dp: 9, len: 10 })),
+        ("d12-udp-to-all-nodes-no-listener-eth", rx6(Med::Eth, 0, 0, Ll::Eth(0x3333_0000_0001), PEER6LL, v6([0xff02, 0, 0, 0, 0, 0, 0, 1]), None, Upper::Udp { sp: 40000, dp: 9, len: 10 })),
+        // has_solicited_node: foreign unicast / unjoined multicast sharing the low 16 bits with an own address
+        ("solnode-lookalike-unicast-udp-delivered-ip", rx6(Med::Ip, 0, 1, Ll::None, PEER6G, v6([0x2001, 0xdb8, 5, 0, 0, 0, 0xab, 0xcd01]), None, Upper::Udp { sp: 40000, dp: 5000, len: 10 })),
+        ("solnode-lookalike-unicast-echo-answered-eth", rx6(Med::Eth, 0, 0, own_eth, PEER6G, v6([0x2001, 0xdb8, 5, 0, 0, 0, 0xab, 0xcd01]), None, Upper::EchoReq { id: 1, len: 12 })),
+        ("solnode-lookalike-multicast-udp-delivered-ip", rx6(Med::Ip, 0, 1, Ll::None, PEER6G, v6([0xff05, 0, 0, 0, 0, 0, 0xab, 0xcd01]), None, Upper::Udp { sp: 40000, dp: 5000, len: 10 })),
+        ("solnode-lookalike-low16-only-ip", rx6(Med::Ip, 0, 1, Ll::None, PEER6G, v6([0xff02, 0, 0, 0, 0, 1, 0xff99, 0xcd01]), None, Upper::Udp { sp: 40000, dp: 5000, len: 10 })),
+        // hop-by-hop options processed before the destination filter: foreign packet answered
+        ("hbh-foreign-unicast-answered-with-param-problem-eth", rx6(Med::Eth, 0, 0, own_eth, PEER6G, v6([0x2001, 0xdb8, 0, 0, 0, 0, 0, 0x77]), send_all.clone(), Upper::Udp { sp: 40000, dp: 9, len: 10 })),
+        // an ICMPv6 error / a TCP reset answered with a parameter problem
+        ("hbh-param-problem-about-icmpv6-error-ip", rx6(Med::Ip, 0, 0, Ll::None, PEER6G, OWN6G, send_all.clone(), Upper::IcmpErr { ty: 1, q: Quoted::Udp(5000), len: 60 })),
+        ("hbh-param-problem-about-tcp-rst-ip", rx6(Med::Ip, 0, 0, Ll::None, PEER6G, OWN6G, send_all.clone(), Upper::Tcp { sp: 40000, dp: 9, ctl: Ctl::Rst, ack: false, len: 0 })),
+        // ::1 from the network
+        ("loopback-dst-echo-answered-from-loopback-eth", rx6(Med::Eth, 0, 0, own_eth, PEER6LL, v6([0, 0, 0, 0, 0, 0, 0, 1]), None, Upper::EchoReq { id: 1, len: 12 })),
+        ("loopback-dst-udp-delivered-ip", rx6(Med::Ip, 0, 1, Ll::None, PEER6G, v6([0, 0, 0, 0, 0, 0, 0, 1]), None, Upper::Udp { sp: 40000, dp: 5000, len: 10 })),
+        ("loopback-dst-syn-reaches-listener-ip", rx6(Med::Ip, 0, 1, Ll::None, PEER6G, v6([0, 0, 0, 0, 0, 0, 0, 1]), None, syn(80))),
+        // unicast IP inside a link-layer broadcast / multicast frame answered with an error
+        ("ll-broadcast-unicast-ip-udp-port-unreachable-eth", rx4(Med::Eth, 0, Ll::Eth(0xffff_ffff_ffff), PEER4, OWN4, Upper::Udp { sp: 40000, dp: 9, len: 10 })),
+        ("ll-multicast-unicast-ip-syn-rst-eth", rx4(Med::Eth, 0, Ll::Eth(0x0100_5e00_0001), PEER4, OWN4, syn(9))),
+        ("ll-broadcast-unicast-ip6-udp-port-unreachable-eth", rx6(Med::Eth, 0, 0, Ll::Eth(0xffff_ffff_ffff), PEER6G, OWN6G, None, Upper::Udp { sp: 40000, dp: 9, len: 10 })),
+        ("ll-broadcast-unicast-ip6-udp-port-unreachable-154", rx6(Med::M154, 0, 0, Ll::Short(0xffff), PEER6G, OWN6G, None, Upper::Udp { sp: 40000, dp: 9, len: 10 })),
+    ]
 }
